@@ -3,17 +3,17 @@ import VibeProof.Model.Index
 State machine of ONE stored table with its constraint hash indexes, the user-defined indexes
 of the registry that name it, and the transaction / savepoint machinery
 (C15, C13, C14).  Every step is written as the executors sequence the storage calls
-(after the `fix:` commits d0a53f8a, b9e81ca0, b0911378, a2743cd5, ee88b7d7, e4da8cb8, 650ff828):
+(after the `fix:` commits d0a53f8a, b9e81ca0, b0911378, a2743cd5, ee88b7d7, e4da8cb8, 650ff828, d69656ff):
 
   INSERT            Database::insert_row / insert_rows_batch: Table::insert (push,
                     update_for_insert), add_to_indexes_for_insert, record_change(Insert)
   UPDATE            per row Table::update_row_selective (row replaced, affected hash indexes
                     patched), afterwards per row update_indexes_for_update (old row = row
-                    before the statement); NOT recorded in the change log
+                    before the statement); record_change(Update) per row
   ON DUP KEY UPDATE Table::update_row (all hash indexes patched) + update_indexes_for_update
   DELETE .. WHERE   Table::delete_where (rows removed, hash indexes rebuilt) +
-                    Database::rebuild_indexes; NOT recorded
-  DELETE / TRUNCATE Table::clear + Database::rebuild_indexes; NOT recorded
+                    Database::rebuild_indexes; record_change(Delete) per removed row
+  DELETE / TRUNCATE Table::clear + Database::rebuild_indexes; record_change(Delete) per row
   REPLACE           delete_where of the conflicting rows (+ rebuild_indexes if any), insert_row
   CREATE/DROP INDEX registry only
   BEGIN             snapshot of rows and hash indexes (tables.clone()) and of the index registry
@@ -35,6 +35,13 @@ structure UIdx where
   data : UData
   deriving Repr, DecidableEq
 
+/-- a recorded change (`TransactionChange`) -/
+inductive Change where
+  | ins (r : Row)
+  | del (r : Row)
+  | upd (old new : Row)
+  deriving Repr, DecidableEq
+
 structure Txn where
   snapRows : List Row
   snapH : List HIdx
@@ -42,8 +49,9 @@ structure Txn where
   snapU : List UIdx
   /-- savepoint stack, newest at the end: (name, length of the change log at creation) -/
   saves : List (String × Nat)
-  /-- change log; only inserts are ever recorded (as coded) -/
-  log : List Row
+  /-- change log: every row inserted, removed or rewritten since BEGIN (fix d69656ff; before it
+  only inserts were recorded) -/
+  log : List Change
   deriving Repr, DecidableEq
 
 structure TState where
@@ -81,8 +89,11 @@ def hRebuildAll (hs : List HIdx) (rows : List Row) : List HIdx :=
 def uRebuildAll (us : List UIdx) (rows : List Row) : List UIdx :=
   us.map (fun u => { u with data := uBuild u.cols rows })
 
-def logIns (t : Option Txn) (r : Row) : Option Txn :=
-  t.map (fun x => { x with log := x.log ++ [r] })
+/-- `record_change` for a list of changes (no-op outside a transaction) -/
+def logAdd (t : Option Txn) (cs : List Change) : Option Txn :=
+  t.map (fun x => { x with log := x.log ++ cs })
+
+def logIns (t : Option Txn) (r : Row) : Option Txn := logAdd t [.ins r]
 
 /-- `Database::insert_row` -/
 def insert1 (s : TState) (r : Row) : TState :=
@@ -125,6 +136,18 @@ def updUser (us : List UIdx) (rows0 : List Row) : List (Nat × Row × List Nat) 
 def removeAt (rows : List Row) (ps : List Nat) : List Row :=
   (rows.zipIdx.filter (fun e => !ps.contains e.2)).map (fun e => e.1)
 
+/-- the rows `delete_where` removes, in table order -/
+def removedAt (rows : List Row) (ps : List Nat) : List Row :=
+  (rows.zipIdx.filter (fun e => ps.contains e.2)).map (fun e => e.1)
+
+/-- the `Update` records of an UPDATE statement: (row before the statement, row now stored) -/
+def updChanges (rows0 : List Row) : List (Nat × Row × List Nat) → List Change
+  | [] => []
+  | (i, new, _) :: rest =>
+    match rows0[i]? with
+    | some old => .upd old new :: updChanges rows0 rest
+    | none => updChanges rows0 rest
+
 /-- rows REPLACE deletes: same PRIMARY KEY values, or same values of a UNIQUE constraint whose
 new values contain no NULL -/
 def conflictPos (hs : List HIdx) (rows : List Row) (r : Row) : List Nat :=
@@ -133,14 +156,28 @@ def conflictPos (hs : List HIdx) (rows : List Row) (r : Row) : List Nat :=
     | some k => decide (hKey h.cols h.skipNull e.1 = some k)
     | none => false))).map (fun e => e.2)
 
-/-- undo of the recorded inserts, newest first: `Table::remove_row` removes the FIRST equal row
-and rebuilds the hash indexes; stops at the first row that is not found -/
-def undoAll (hs : List HIdx) (rows : List Row) : List Row → List Row × List HIdx × Bool
+/-- `Table::insert` of a row put back by an undo: appended, hash indexes patched -/
+def putBack (hs : List HIdx) (rows : List Row) (r : Row) : List Row × List HIdx :=
+  (rows ++ [r], hs.map (fun h => { h with data := hIns h.cols h.skipNull h.data r rows.length }))
+
+/-- `undo_change`, newest change first; stops at the first row that is not found.
+Insert: `remove_row` (FIRST equal row, hash rebuild).  Delete: the row is inserted again.
+Update: the updated row is removed and the old row inserted again. -/
+def undoAll (hs : List HIdx) (rows : List Row) : List Change → List Row × List HIdx × Bool
   | [] => (rows, hs, true)
-  | r :: rest =>
+  | .ins r :: rest =>
     if r ∈ rows then
       let rows' := rows.erase r
       undoAll (hRebuildAll hs rows') rows' rest
+    else (rows, hs, false)
+  | .del r :: rest =>
+    let p := putBack hs rows r
+    undoAll p.2 p.1 rest
+  | .upd old new :: rest =>
+    if new ∈ rows then
+      let rows' := rows.erase new
+      let p := putBack (hRebuildAll hs rows') rows' old
+      undoAll p.2 p.1 rest
     else (rows, hs, false)
 
 /-- `savepoints.iter().rposition(|sp| sp.name == name)`: the most recent savepoint of that name
@@ -158,7 +195,8 @@ def step (s : TState) : Op → TState × Option TErr
     match updRows s.rows s.hidx ups with
     | none => (s, some .outOfRange)
     | some (rows', hs') =>
-      ({ s with rows := rows', hidx := hs', uidx := updUser s.uidx s.rows ups }, none)
+      ({ s with rows := rows', hidx := hs', uidx := updUser s.uidx s.rows ups,
+                txn := logAdd s.txn (updChanges s.rows ups) }, none)
   | .upsert i new =>
     match s.rows[i]? with
     | none => (s, some .outOfRange)
@@ -166,20 +204,24 @@ def step (s : TState) : Op → TState × Option TErr
       ({ s with
          rows := s.rows.set i new
          hidx := s.hidx.map (fun h => { h with data := hUpd h.cols h.skipNull h.data old new i })
-         uidx := s.uidx.map (fun u => { u with data := uPatch u.data (proj u.cols old) (proj u.cols new) i }) },
+         uidx := s.uidx.map (fun u => { u with data := uPatch u.data (proj u.cols old) (proj u.cols new) i })
+         txn := logAdd s.txn [.upd old new] },
        none)
   | .delete ps =>
     let rows' := removeAt s.rows ps
-    ({ s with rows := rows', hidx := hRebuildAll s.hidx rows', uidx := uRebuildAll s.uidx rows' }, none)
+    ({ s with rows := rows', hidx := hRebuildAll s.hidx rows', uidx := uRebuildAll s.uidx rows',
+              txn := logAdd s.txn ((removedAt s.rows ps).map .del) }, none)
   | .truncate =>
-    ({ s with rows := [], hidx := s.hidx.map (fun h => { h with data := [] }), uidx := uRebuildAll s.uidx [] },
+    ({ s with rows := [], hidx := s.hidx.map (fun h => { h with data := [] }), uidx := uRebuildAll s.uidx [],
+              txn := logAdd s.txn (s.rows.map .del) },
      none)
   | .replace r =>
     let ps := conflictPos s.hidx s.rows r
     let rows' := if ps.isEmpty then s.rows else removeAt s.rows ps
     let s1 : TState :=
       { s with rows := rows', hidx := hRebuildAll s.hidx rows'
-               uidx := if ps.isEmpty then s.uidx else uRebuildAll s.uidx rows' }
+               uidx := if ps.isEmpty then s.uidx else uRebuildAll s.uidx rows'
+               txn := logAdd s.txn ((removedAt s.rows ps).map .del) }
     (insert1 s1 r, none)
   | .createIndex name cols unique =>
     if s.uidx.any (fun u => u.name == name) then (s, some .indexExists)
